@@ -1465,7 +1465,7 @@ class Discovery(object):
                         SubscribeComputationMessage(replica, False))
                     # remove all knowledge of current replicas as we are not
                     #  subscribed any more
-                    self._replicas_data.pop(replica)
+                    self._replicas_data.pop(replica, None)
             elif cb is not None:
                 raise ValueError(
                     'No corresponding callback found for replica %s : %s',
@@ -1475,7 +1475,7 @@ class Discovery(object):
                 SubscribeReplicaMessage(replica, False))
             # remove all knowledge of current replicas as we are not
             #  subscribed any more
-            self._replicas_data.pop(replica)
+            self._replicas_data.pop(replica, None)
         return removed
 
     def replica_agents(self, replica: ComputationName) -> Set[AgentName]:
